@@ -20,7 +20,11 @@ from gen import Cfg, G
 from pipeline import Case, exec_diff, load_corpus, replay_case
 from shrink import prog_control_in_operand, shrink
 
-PROOF_MODULES = ["PyTealV.Proofs.C02Spill", "PyTealV.Proofs.C02RecPoints", "PyTealV.Proofs.SimR"]
+PROOF_MODULES = ["PyTealV.Proofs.C02Spill", "PyTealV.Proofs.C02RecPoints", "PyTealV.Proofs.SimR",
+                 # whole-program code-generation theorem `genProg_correct` (Src.runProg vs the multi-routine graph machine)
+                 "PyTealV.Proofs.C02GenMach", "PyTealV.Proofs.C02GenShape", "PyTealV.Proofs.C02GenPrim",
+                 "PyTealV.Proofs.C02GenSem", "PyTealV.Proofs.C02GenSrc", "PyTealV.Proofs.C02GenCall",
+                 "PyTealV.Proofs.C02GenSpill", "PyTealV.Proofs.C02GenProg", "PyTealV.Proofs.C02Gen"]
 TRUSTED = [
     "Lean 4 kernel; axioms propext, Classical.choice, Quot.sound only",
     "AVM spec lean/PyTealV/Avm (callsub/retsub/proto/frame_dig/frame_bury frame rules written from the AVM specification)",
@@ -89,9 +93,20 @@ def run(tier: str) -> int:
             for k, v in g.stats.items():
                 gstats[k.split(":")[0]] += v
             gstats["programs:recursive" if cfg.recursive else "programs:nonrecursive"] += 1
+        first = True
         for opts in (settings if settings is not None else option_sets(ver, r, tier)):
             case = Case(d, p, ver, **opts)
             stats[f"compile:{case.res[0]}"] += 1
+            if first and case.ok:
+                # is this program inside the fragment of the universal theorem `genProg_correct`
+                # (scratch-slot convention; automatically numbered variables renamed into free slots)?
+                first = False
+                fr = d.ask(f"fragmentr-sexp {ver} 0 {case.sexp}")
+                kv = dict(x.split("=", 1) for x in fr.split(" ") if "=" in x)
+                if "stage" in kv:
+                    stats[f"genProg_correct:stage={kv['stage']}:in_fragment={kv.get('renamed')}"] += 1
+                else:
+                    stats["genProg_correct:" + fr[:40]] += 1
             if not case.ok:
                 stats[f"rejected:{case.res[1]}"] += 1
                 if case.res[0] == "crash":
@@ -216,6 +231,7 @@ def run(tier: str) -> int:
                 "distinct = distinct emitted TEAL texts",
         "samples": samples or [{"note": "no recursive sample recorded"}],
         "family_cases": fam_cases,
+        "genProg_correct_fragment": {k.split(":", 1)[1]: v for k, v in sorted(stats.items()) if k.startswith("genProg_correct:")},
         "spill_tie": spill_cov,
         "distribution": {"constructs": dict(gstats.most_common(40)), "run": dict(sorted(stats.items()))},
     }
